@@ -29,5 +29,17 @@ def gen(tier, rng):
             # orientation per edge
             oriented = [(a, b) if rng.chance(1, 2) else (b, a) for (a, b) in es]
             nat = {p: rng.choice([0, 0, 1]) for p in range(1, n + 1)} if rng.chance(1, 3) else None
+            if nat:
+                # a node behind the mock NAT hears only from addresses it has sent to: the connect instructions
+                # count as a usable link only if the NATed end dials (both dial when both are NATed)
+                fixed = []
+                for (a, b) in oriented:
+                    if nat.get(a) and nat.get(b):
+                        fixed += [(a, b), (b, a)]
+                    elif nat.get(b):
+                        fixed.append((b, a))
+                    else:
+                        fixed.append((a, b))
+                oriented = fixed
             i += 1
             yield nodegen.c14_graph_script(rng, "graph-%d-%d" % (n, i), n, oriented, nat=nat, seconds=6 + 3 * n)
